@@ -89,6 +89,14 @@ def run(ctx):
         ctx.check(sorted(got) == want, "context-flow", v,
                   f"{v}: sub-evaluations (node field -> current node) are {sorted(got)}; the specification requires {want}", ip.b.span)
     ctx.floor("context-flow", n, 18, "recursive evaluation sites classified")
+    # the per-arm composition rows of the statement (shared with C01): pipe/sub-expression, projections,
+    # multi-selects and the truth-table forms depend only on their parts' results, exactly as specified
+    from . import c01
+    for v in ("Subexpr", "Projection", "Flatten", "MultiList", "MultiHash", "Or", "And", "Not", "Condition"):
+        arm = ip.arms.get(v)
+        fn = getattr(c01, "arm_" + v, None)
+        if arm is not None and fn is not None:
+            ctx.attempt(f"arm_{v}", fn, ctx, ip, arm)
     # no other body evaluates sub-expressions of the node except builtins on expression references
     callers = set()
     for b in lib.fn_bodies():
@@ -98,7 +106,7 @@ def run(ctx):
     allowed = {"Expression::<'a>::search"} | {f"<functions::{x} as functions::Function>::evaluate" for x in ("MapFn", "SortByFn", "MaxByFn", "MinByFn")}
     ctx.check(callers == allowed, "context-flow", "who-may-evaluate", f"interpret is called only from search and the four expression-reference builtins (found extra {sorted(callers - allowed)}, missing {sorted(allowed - callers)})")
     # parser side
-    check_parser_side(ctx, lib)
+    ctx.attempt("check_parser_side", check_parser_side, ctx, lib)
     # nothing else is read: effect analysis verdict
     sub = check_effects_quiet(ctx, lib)
 
@@ -119,7 +127,9 @@ def check_effects_quiet(ctx, lib):
 def check_parser_side(ctx, lib):
     from ..analysis import Branches, edge_dominates
     from ..parsing import first_discr_switch, region, TOKEN
+    from .c04 import check_top_level
     rule = "parser-composition"
+    check_top_level(ctx, lib, rule)
     b = ctx.fn(P + "led", rule=rule)
     if b is None:
         return
